@@ -15,8 +15,7 @@ CHAIN_FRAME = [
     ("ETA", "in_chain(self, o)"),
     ("$refused", "in_chain(self, o)"),
     ("$ncalls", "o == inner(self)"),
-    ("$list", "exists(lambda w: in_chain(self, w) and instance_of(w, 'StatsGatheringProblem') "
-              "and o == cast(w, 'ref:StatsGatheringProblem')._durations, w='ref:Problem')"),
+    ("$list", "field(o, '$kind', 'int') == 9 and in_chain(self, dur_owner(o))"),
 ]
 
 # the part of the frame below an object (what a forwarding wrapper's super().evaluate may touch)
@@ -39,7 +38,7 @@ fn("ext.objective.__call__", params={"genome": "g"}, returns="fl",
    trusted=True, note="the objective: deterministic, total, never NaN; ghost ncalls counts its invocations")
 
 # ---- abstract contracts (dynamic dispatch through `_inner`, `problem`) ---------------------------
-fn("pyhms.core.problem.Problem.evaluate", abstract=True, params={"genome": "g"}, returns="fl",
+fn("pyhms.core.problem.Problem.evaluate", abstract=True, params={"genome": "g"}, returns="fl", reveal=["WfProblem"],
    requires=[cl("wf", "WfProblem(self)")],
    modifies=CHAIN_FRAME,
    ensures=[cl("transparent", "Transparent(self, genome, result, old(ncalls(inner(self))), ncalls(inner(self)))",
@@ -47,18 +46,18 @@ fn("pyhms.core.problem.Problem.evaluate", abstract=True, params={"genome": "g"},
             cl("counters_monotone", "forall(lambda o: imp(in_chain(self, o) and instance_of(o, 'EvalCountingProblem'), "
                "cast(o, 'ref:EvalCountingProblem')._n_evals >= old(cast(o, 'ref:EvalCountingProblem')._n_evals)), o='ref:Problem')")])
 
-fn("pyhms.core.problem.Problem.worse_than", abstract=True, params={"first_fitness": "fl", "second_fitness": "fl"},
+fn("pyhms.core.problem.Problem.worse_than", abstract=True, reveal=["WfProblem"], params={"first_fitness": "fl", "second_fitness": "fl"},
    returns="bool", requires=[cl("wf", "WfProblem(self)")],
    ensures=[cl("order", "imp(is_num(first_fitness) and is_num(second_fitness), "
                "result == worse(inner(self), first_fitness, second_fitness))", tags="C16 C13 C04"),
             cl("nan_first_is_worse", "imp(is_nan(first_fitness) and is_num(second_fitness), result)"),
             cl("nan_second", "imp(is_num(first_fitness) and is_nan(second_fitness), not result)")])
 
-fn("pyhms.core.problem.Problem.bounds", abstract=True, returns="arr:B", pure=True,
+fn("pyhms.core.problem.Problem.bounds", abstract=True, returns="arr:B", pure=True, reveal=["WfProblem"],
    requires=[cl("wf", "WfProblem(self)")],
    ensures=[cl("box", "result == box(inner(self))", tags="C16")])
 
-fn("pyhms.core.problem.Problem.maximize", abstract=True, returns="bool", pure=True,
+fn("pyhms.core.problem.Problem.maximize", abstract=True, returns="bool", pure=True, reveal=["WfProblem"],
    requires=[cl("wf", "WfProblem(self)")],
    ensures=[cl("direction", "result == dirmax(inner(self))", tags="C16 C13")])
 
@@ -122,7 +121,7 @@ refine(P + "StatsGatheringProblem.evaluate", P + "Problem.evaluate",
        ensures=[cl("counts_one", "self._n_evals == old(self._n_evals) + 1", tags="C16"),
                 cl("one_duration", "len(self._durations) == old(len(self._durations)) + 1", tags="C16")])
 
-fn(P + "get_function_problem", params={"problem": "ref:Problem"}, returns="ref:FunctionProblem", pure=True,
+fn(P + "get_function_problem", params={"problem": "ref:Problem"}, returns="ref:FunctionProblem", pure=True, reveal=["WfProblem"],
    requires=[cl("wf", "WfProblem(problem)")],
    ensures=[cl("innermost", "result == inner(problem)", tags="C16")],
    raises=[cl("never", "False")])
